@@ -884,10 +884,10 @@ theorem lazyItems_sound {root : Desc} {known : List Item} (hk : ∀ x ∈ known,
     | root => simp at hy
     | attr a => exact .field hxr hy
     | idx i =>
-      simp only [Option.mem_toList, Option.mem_def] at hy
+      simp only [Option.mem_toList] at hy
       exact sliceVia_sound hk hxr hy
     | slice lo hi =>
-      simp only [Option.mem_toList, Option.mem_def] at hy
+      simp only [Option.mem_toList] at hy
       exact sliceVia_sound hk hxr hy
 
 theorem access_sound {root : Desc} (e : List Tok) (known known' : List Item) (st : State)
@@ -942,5 +942,420 @@ theorem accessAll_mono {root : Desc} (es : List (List Tok)) (known known' : List
     · rename_i k2 hk2
       exact fun x hx => ih _ h x (hacc e _ _ _ hk2 x hx)
     · cases h
+
+/-! ## `render` is injective on well-formed names -/
+
+/-- slot / field names as Python allows them: letters, digits, underscore -/
+def IdentLike (a : String) : Prop := ∀ c ∈ a.toList, c.isAlphanum = true ∨ c = '_'
+
+/-- a full name: the top `s` followed by attribute / index / slice tokens with identifier-like names -/
+def WFName (n : Name) : Prop :=
+  ∃ tl, n = .root :: tl ∧ ∀ t ∈ tl, t ≠ .root ∧ ∀ a, t = .attr a → IdentLike a
+
+theorem span_unique {P : Char → Prop} {a b r r' : List Char}
+    (ha : ∀ c ∈ a, ¬ P c) (hb : ∀ c ∈ b, ¬ P c)
+    (hr : r = [] ∨ ∃ c t, r = c :: t ∧ P c) (hr' : r' = [] ∨ ∃ c t, r' = c :: t ∧ P c)
+    (h : a ++ r = b ++ r') : a = b ∧ r = r' := by
+  induction a generalizing b with
+  | nil =>
+    cases b with
+    | nil => exact ⟨rfl, by simpa using h⟩
+    | cons y b' =>
+      exfalso
+      simp only [List.nil_append, List.cons_append] at h
+      rcases hr with rfl | ⟨c, t, rfl, hc⟩
+      · cases h
+      · simp only [List.cons.injEq] at h
+        exact hb y (by simp) (h.1 ▸ hc)
+  | cons x a' ih =>
+    cases b with
+    | nil =>
+      exfalso
+      simp only [List.nil_append, List.cons_append] at h
+      rcases hr' with rfl | ⟨c, t, rfl, hc⟩
+      · cases h
+      · simp only [List.cons.injEq] at h
+        exact ha x (by simp) (h.1 ▸ hc)
+    | cons y b' =>
+      simp only [List.cons_append, List.cons.injEq] at h
+      obtain ⟨rfl, h⟩ := h
+      obtain ⟨rfl, rfl⟩ := ih (fun c hc => ha c (List.mem_cons_of_mem _ hc))
+        (fun c hc => hb c (List.mem_cons_of_mem _ hc)) h
+      exact ⟨rfl, rfl⟩
+
+theorem digits_isDigit {n : Nat} {c : Char} (h : c ∈ digits n) : c.isDigit = true :=
+  Nat.isDigit_of_mem_toDigits (by decide) (by decide) h
+
+theorem digitChar_inj {n m : Nat} (hn : n < 10) (hm : m < 10) (h : n.digitChar = m.digitChar) : n = m := by
+  have h1 := Nat.toNat_digitChar_of_lt_ten hn
+  have h2 := Nat.toNat_digitChar_of_lt_ten hm
+  rw [h] at h1; omega
+
+theorem digits_injective : ∀ {n m : Nat}, digits n = digits m → n = m := by
+  intro n
+  induction n using Nat.strongRecOn with
+  | _ n ih =>
+    intro m h
+    unfold digits at h
+    rw [Nat.toDigits_eq_if (by decide), Nat.toDigits_eq_if (b := 10) (n := m) (by decide)] at h
+    by_cases hn : n < 10 <;> by_cases hm : m < 10 <;> simp only [hn, hm, if_true, if_false] at h
+    · simp only [List.cons.injEq, and_true] at h; exact digitChar_inj hn hm h
+    · exfalso
+      have := congrArg List.length h
+      have hpos := Nat.length_toDigits_pos (b := 10) (n := m / 10)
+      simp at this <;> omega
+    · exfalso
+      have := congrArg List.length h
+      have hpos := Nat.length_toDigits_pos (b := 10) (n := n / 10)
+      simp at this <;> omega
+    · obtain ⟨h1, h2⟩ := List.append_inj' h rfl
+      have e1 : n / 10 = m / 10 := ih (n / 10) (by omega) (by unfold digits; exact h1)
+      simp only [List.cons.injEq, and_true] at h2
+      have e2 : n % 10 = m % 10 := digitChar_inj (Nat.mod_lt _ (by decide)) (Nat.mod_lt _ (by decide)) h2
+      omega
+
+abbrev Delim (c : Char) : Prop := c = '.' ∨ c = '['
+abbrev NonDigit (c : Char) : Prop := c.isDigit = false
+
+theorem ident_no_delim {a : String} (h : IdentLike a) : ∀ c ∈ a.toList, ¬ Delim c := by
+  intro c hc hd
+  rcases h c hc with h | rfl
+  · rcases hd with rfl | rfl <;> simp [Char.isAlphanum, Char.isAlpha, Char.isUpper, Char.isLower, Char.isDigit] at h
+  · rcases hd with h | h <;> cases h
+
+theorem digits_no_nondigit (n : Nat) : ∀ c ∈ digits n, ¬ NonDigit c := by
+  intro c hc hd
+  rw [NonDigit, digits_isDigit hc] at hd; cases hd
+
+def TokOk (t : Tok) : Prop := t ≠ .root ∧ ∀ a, t = .attr a → IdentLike a
+
+theorem renderChars_cons (t : Tok) (r : List Tok) : renderChars (t :: r) = t.chars ++ renderChars r := by
+  simp [renderChars]
+
+/-- the rendering of a root-free token list is empty or starts with `.` or `[` -/
+theorem renderChars_head {tl : List Tok} (h : ∀ t ∈ tl, TokOk t) :
+    renderChars tl = [] ∨ ∃ c r, renderChars tl = c :: r ∧ Delim c := by
+  cases tl with
+  | nil => left; rfl
+  | cons t r =>
+    right
+    rw [renderChars_cons]
+    have := (h t (by simp)).1
+    cases t with
+    | root => exact absurd rfl this
+    | attr a => exact ⟨'.', _, rfl, Or.inl rfl⟩
+    | idx i => exact ⟨'[', _, rfl, Or.inr rfl⟩
+    | slice lo hi => exact ⟨'[', _, rfl, Or.inr rfl⟩
+
+theorem renderChars_injective : ∀ {l₁ l₂ : List Tok}, (∀ t ∈ l₁, TokOk t) → (∀ t ∈ l₂, TokOk t) →
+    renderChars l₁ = renderChars l₂ → l₁ = l₂ := by
+  intro l₁
+  induction l₁ with
+  | nil =>
+    intro l₂ _ h2 h
+    cases l₂ with
+    | nil => rfl
+    | cons t r =>
+      exfalso
+      rw [renderChars_cons] at h
+      have := (h2 t (by simp)).1
+      cases t <;> simp [renderChars, Tok.chars] at h this
+  | cons t r ih =>
+    intro l₂ h1 h2 h
+    cases l₂ with
+    | nil =>
+      exfalso
+      rw [renderChars_cons] at h
+      have := (h1 t (by simp)).1
+      cases t <;> simp [renderChars, Tok.chars] at h this
+    | cons t' r' =>
+      have hr : ∀ t ∈ r, TokOk t := fun t ht => h1 t (List.mem_cons_of_mem _ ht)
+      have hr' : ∀ t ∈ r', TokOk t := fun t ht => h2 t (List.mem_cons_of_mem _ ht)
+      have ht := h1 t (by simp)
+      have ht' := h2 t' (by simp)
+      rw [renderChars_cons, renderChars_cons] at h
+      have key : t = t' ∧ renderChars r = renderChars r' := by
+        cases t with
+        | root => exact absurd rfl ht.1
+        | attr a =>
+          cases t' with
+          | root => exact absurd rfl ht'.1
+          | attr a' =>
+            simp only [Tok.chars, List.cons_append, List.cons.injEq, true_and] at h
+            obtain ⟨e1, e2⟩ := span_unique (P := Delim) (ident_no_delim (ht.2 a rfl))
+              (ident_no_delim (ht'.2 a' rfl)) (renderChars_head hr) (renderChars_head hr') h
+            exact ⟨by rw [String.toList_inj.1 e1], e2⟩
+          | idx i => simp [Tok.chars] at h
+          | slice lo hi => simp [Tok.chars] at h
+        | idx i =>
+          cases t' with
+          | root => exact absurd rfl ht'.1
+          | attr a' => simp [Tok.chars] at h
+          | idx i' =>
+            simp only [Tok.chars, List.cons_append, List.cons.injEq, true_and, List.append_assoc] at h
+            obtain ⟨e1, e2⟩ := span_unique (P := NonDigit) (digits_no_nondigit i) (digits_no_nondigit i')
+              (Or.inr ⟨']', _, rfl, by decide⟩) (Or.inr ⟨']', _, rfl, by decide⟩) h
+            simp only [List.nil_append, List.cons.injEq, true_and] at e2
+            exact ⟨by rw [digits_injective e1], e2⟩
+          | slice lo hi =>
+            exfalso
+            simp only [Tok.chars, List.cons_append, List.cons.injEq, true_and, List.append_assoc] at h
+            obtain ⟨e1, e2⟩ := span_unique (P := NonDigit) (digits_no_nondigit i) (digits_no_nondigit lo)
+              (Or.inr ⟨']', _, rfl, by decide⟩) (Or.inr ⟨':', _, rfl, by decide⟩) h
+            simp at e2
+        | slice lo hi =>
+          cases t' with
+          | root => exact absurd rfl ht'.1
+          | attr a' => simp [Tok.chars] at h
+          | idx i' =>
+            exfalso
+            simp only [Tok.chars, List.cons_append, List.cons.injEq, true_and, List.append_assoc] at h
+            obtain ⟨e1, e2⟩ := span_unique (P := NonDigit) (digits_no_nondigit lo) (digits_no_nondigit i')
+              (Or.inr ⟨':', _, rfl, by decide⟩) (Or.inr ⟨']', _, rfl, by decide⟩) h
+            simp at e2
+          | slice lo' hi' =>
+            simp only [Tok.chars, List.cons_append, List.cons.injEq, true_and, List.append_assoc] at h
+            obtain ⟨e1, e2⟩ := span_unique (P := NonDigit) (digits_no_nondigit lo) (digits_no_nondigit lo')
+              (Or.inr ⟨':', _, rfl, by decide⟩) (Or.inr ⟨':', _, rfl, by decide⟩) h
+            simp only [List.cons.injEq, true_and] at e2
+            obtain ⟨e3, e4⟩ := span_unique (P := NonDigit) (digits_no_nondigit hi) (digits_no_nondigit hi')
+              (Or.inr ⟨']', _, rfl, by decide⟩) (Or.inr ⟨']', _, rfl, by decide⟩) e2
+            simp only [List.nil_append, List.cons.injEq, true_and] at e4
+            exact ⟨by rw [digits_injective e1, digits_injective e3], e4⟩
+      obtain ⟨rfl, hrest⟩ := key
+      rw [ih hr hr' hrest]
+
+theorem render_injective_wf {n₁ n₂ : Name} (h1 : WFName n₁) (h2 : WFName n₂) (h : render n₁ = render n₂) :
+    n₁ = n₂ := by
+  obtain ⟨t1, rfl, w1⟩ := h1
+  obtain ⟨t2, rfl, w2⟩ := h2
+  have hc : renderChars (.root :: t1) = renderChars (.root :: t2) := by
+    have := congrArg String.toList h
+    simpa [render] using this
+  rw [renderChars_cons, renderChars_cons] at hc
+  simp only [Tok.chars, List.cons_append, List.nil_append, List.cons.injEq, true_and] at hc
+  rw [renderChars_injective w1 w2 hc]
+
+/-! ## introduction rules (used for the non-vacuity examples) -/
+
+theorem mem_firsts_of_lookup {β} {l : List (String × β)} {k : String} {v : β}
+    (h : l.lookup k = some v) : (k, v) ∈ firsts l := by
+  induction l with
+  | nil => simp [List.lookup] at h
+  | cons p r ih =>
+    obtain ⟨k', v'⟩ := p
+    simp only [List.lookup] at h
+    cases hk : k == k' with
+    | true =>
+      simp only [hk, Option.some.injEq] at h
+      have : k = k' := by simpa using hk
+      subst this; subst h
+      simp [firsts]
+    | false =>
+      simp only [hk] at h
+      simp only [firsts, List.mem_cons, List.mem_filter]
+      right
+      refine ⟨ih h, ?_⟩
+      simp only [bne_iff_ne, ne_eq]
+      intro e; rw [e] at hk; simp at hk
+
+theorem slotItems_intro {p : Item} {d : Desc} {name : String} {sv : SVal DTag} {c : Desc} {ix : List Nat}
+    (hp : p.2 = .node d) (hl : (slotsOf d).lookup name = some sv) (hpub : isPublic name = true)
+    (hg : getPath sv ix = some (.one c)) :
+    (childRec p.1 name ix c, toVal (.one c)) ∈ slotItems p := by
+  obtain ⟨r, v⟩ := p
+  simp only at hp; subst hp
+  simp only [slotItems, List.mem_flatMap, List.mem_filter, List.mem_map]
+  exact ⟨(name, sv), ⟨mem_firsts_of_lookup hl, hpub⟩, (c, ix), mem_setattrNames.2 hg, rfl⟩
+
+theorem fieldItems_intro {p : Item} {k : SigKind} {fs : List (String × SVal TTag)} {sl : Option (Nat × Nat)}
+    {a : String} {fv : SVal TTag} {t : Ty} {ix : List Nat}
+    (hp : p.2 = .sig k (.mk .struct fs) sl) (hl : fs.lookup a = some fv) (hg : getPath fv ix = some (.one t)) :
+    (fieldRec p.1 a ix, PyVal.sig k t none) ∈ fieldItems p a := by
+  obtain ⟨r, v⟩ := p
+  simp only at hp; subst hp
+  simp only [fieldItems, hl, List.mem_map]
+  exact ⟨(t, ix), mem_bfs_single.2 hg, rfl⟩
+
+/-! ## completeness: every NamedObject an expression can reach is an object of the hierarchy -/
+
+theorem suffixOf_snoc (name : String) (jx : List Nat) (i : Nat) :
+    suffixOf name (jx ++ [i]) = suffixOf name jx ++ [.idx i] := by
+  simp [suffixOf]
+
+/-- a sliced signal sits directly under an unsliced Bits signal that is itself an object -/
+theorem slice_parent {root : Desc} {x : Item} (h : Reach root x) {k : SigKind} {ty : Ty} {olo ohi : Nat}
+    (hv : x.2 = .sig k ty (some (olo, ohi))) :
+    ∃ p n s, Reach root p ∧ p.2 = .sig k (.mk (.bits n) s) none ∧ x.1.pos = p.1.pos ++ [.slice olo ohi] ∧
+      olo < ohi ∧ ohi ≤ n := by
+  rcases reach_cases h with rfl | ⟨p, hp, hs⟩
+  · obtain ⟨tag, slots⟩ := root
+    cases tag <;> simp [rootItem, rootVal, toVal] at hv
+  · cases hs with
+    | slot hy =>
+      obtain ⟨d, name, sv, c, ix, _, _, _, _, rfl⟩ := mem_slotItems hy
+      obtain ⟨tag, slots⟩ := c
+      cases tag <;> simp [toVal] at hv
+    | field a hy =>
+      obtain ⟨k', fs, sl, fv, t, ix, _, _, _, rfl⟩ := mem_fieldItems hy
+      simp at hv
+    | slice lo hi hy =>
+      obtain ⟨k', n, s, hpv, h1, h2, rfl⟩ := sliceItem_eq_some hy
+      simp only [PyVal.sig.injEq, Option.some.injEq, Prod.mk.injEq] at hv
+      obtain ⟨rfl, -, rfl, rfl⟩ := hv
+      exact ⟨p, n, s, hp, hpv, rfl, h1, h2⟩
+
+/-- what an evaluation state can be: an object of the hierarchy, or a (nested) list inside a slot /
+struct field of one -/
+inductive Good (root : Desc) : State → Prop where
+  | obj {x : Item} : Reach root x → Good root (x.1.pos, x.2)
+  | lst {p : Item} {d : Desc} {name : String} {sv : SVal DTag} {jx : List Nat} {xs : List (SVal DTag)} :
+      Reach root p → p.2 = .node d → (slotsOf d).lookup name = some sv → isPublic name = true →
+      getPath sv jx = some (.many xs) → Good root (p.1.pos ++ suffixOf name jx, .lst xs)
+  | flst {p : Item} {k : SigKind} {fs : List (String × SVal TTag)} {sl : Option (Nat × Nat)} {a : String}
+      {fv : SVal TTag} {jx : List Nat} {xs : List (SVal TTag)} :
+      Reach root p → p.2 = .sig k (.mk .struct fs) sl → fs.lookup a = some fv →
+      getPath fv jx = some (.many xs) → Good root (p.1.pos ++ suffixOf a jx, .flst k xs)
+
+theorem good_of_slot_value {root : Desc} {p : Item} {d : Desc} {name : String} {sv w : SVal DTag} {jx : List Nat}
+    (hp : Reach root p) (hpv : p.2 = .node d) (hl : (slotsOf d).lookup name = some sv)
+    (hpub : isPublic name = true) (hg : getPath sv jx = some w) :
+    Good root (p.1.pos ++ suffixOf name jx, toVal w) := by
+  cases w with
+  | many xs => exact .lst hp hpv hl hpub hg
+  | one c =>
+    have hy := slotItems_intro (p := p) hpv hl hpub hg
+    exact Good.obj (x := (childRec p.1 name jx c, toVal (.one c))) (.slot hp hy)
+
+theorem good_of_field_value {root : Desc} {p : Item} {k : SigKind} {fs : List (String × SVal TTag)}
+    {sl : Option (Nat × Nat)} {a : String} {fv w : SVal TTag} {jx : List Nat}
+    (hp : Reach root p) (hpv : p.2 = .sig k (.mk .struct fs) sl) (hl : fs.lookup a = some fv)
+    (hg : getPath fv jx = some w) :
+    Good root (p.1.pos ++ suffixOf a jx, toFVal k w) := by
+  cases w with
+  | many xs => exact .flst hp hpv hl hg
+  | one t =>
+    have hy := fieldItems_intro (p := p) hpv hl hg
+    exact Good.obj (x := (fieldRec p.1 a jx, PyVal.sig k t none)) (.field hp hy)
+
+theorem good_sliceStep {root : Desc} {x : Item} (hx : Reach root x) {k : SigKind} {n : Nat}
+    {s : List (String × SVal TTag)} {sl : Option (Nat × Nat)} (hv : x.2 = .sig k (.mk (.bits n) s) sl)
+    {lo hi : Nat} {st' : State} (h : sliceStep x.1.pos k n sl lo hi = some st') : Good root st' := by
+  cases sl with
+  | none =>
+    simp only [sliceStep] at h
+    split at h
+    · rename_i hc
+      simp only [Option.some.injEq] at h; subst h
+      have hy : sliceItem x lo hi = some (sliceRec x.1 lo hi, .sig k (.mk (.bits (hi - lo)) []) (some (lo, hi))) := by
+        obtain ⟨r, v⟩ := x
+        simp only at hv; subst hv
+        simp [sliceItem, hc]
+      exact Good.obj (x := (sliceRec x.1 lo hi, _)) (.slice hx hy)
+    · cases h
+  | some q =>
+    obtain ⟨olo, ohi⟩ := q
+    obtain ⟨p, m, s', hp, hpv, hpos, h1, h2⟩ := slice_parent hx hv
+    simp only [sliceStep] at h
+    split at h
+    · rename_i hc
+      simp only [Option.some.injEq] at h; subst h
+      have hb : lo + olo < hi + olo ∧ hi + olo ≤ m := by omega
+      have e : hi + olo - (lo + olo) = hi - lo := by omega
+      have hy : sliceItem p (lo + olo) (hi + olo) =
+          some (sliceRec p.1 (lo + olo) (hi + olo), .sig k (.mk (.bits (hi - lo)) []) (some (lo + olo, hi + olo))) := by
+        obtain ⟨r, v⟩ := p
+        simp only at hpv; subst hpv
+        simp [sliceItem, hb, e]
+      have := Good.obj (x := (sliceRec p.1 (lo + olo) (hi + olo), _)) (.slice hp hy)
+      simpa [hpos, sliceRec] using this
+    · cases h
+
+theorem good_step {root : Desc} {st st' : State} {t : Tok} (hg : Good root st) (hs : step st t = some st')
+    (hpub : ∀ a, t = .attr a → isPublic a = true) : Good root st' := by
+  cases hg with
+  | @obj x hx =>
+    obtain ⟨r, v⟩ := x
+    cases v with
+    | node d =>
+      cases t with
+      | attr a =>
+        simp only [step] at hs
+        cases hl : (slotsOf d).lookup a with
+        | none => simp [hl] at hs
+        | some sv =>
+          simp only [hl, Option.map_some, Option.some.injEq] at hs; subst hs
+          have := good_of_slot_value (jx := []) hx rfl hl (hpub a rfl) rfl
+          simpa [suffixOf] using this
+      | root => simp [step] at hs
+      | idx i => simp [step] at hs
+      | slice lo hi => simp [step] at hs
+    | sig k ty sl =>
+      obtain ⟨tag, fs⟩ := ty
+      cases tag with
+      | struct =>
+        cases t with
+        | attr a =>
+          simp only [step] at hs
+          cases hl : fs.lookup a with
+          | none => simp [hl] at hs
+          | some fv =>
+            simp only [hl, Option.map_some, Option.some.injEq] at hs; subst hs
+            have := good_of_field_value (jx := []) hx rfl hl rfl
+            simpa [suffixOf] using this
+        | root => simp [step] at hs
+        | idx i => simp [step] at hs
+        | slice lo hi => simp [step] at hs
+      | bits n =>
+        cases t with
+        | attr a => simp [step] at hs
+        | root => simp [step] at hs
+        | idx i => exact good_sliceStep hx rfl (by simpa [step] using hs)
+        | slice lo hi => exact good_sliceStep hx rfl (by simpa [step] using hs)
+    | lst xs => exact absurd (reach_inv hx).obj (by simp [PyVal.isObj])
+    | flst k xs => exact absurd (reach_inv hx).obj (by simp [PyVal.isObj])
+  | @lst p d name sv jx xs hp hpv hl hpb hgp =>
+    cases t with
+    | idx i =>
+      simp only [step] at hs
+      cases hi : xs[i]? with
+      | none => simp [hi] at hs
+      | some w =>
+        simp only [hi, Option.map_some, Option.some.injEq] at hs; subst hs
+        have hg2 : getPath sv (jx ++ [i]) = some w := by
+          rw [getPath_append, hgp]; simp [getPath, hi]
+        have := good_of_slot_value hp hpv hl hpb hg2
+        simpa [suffixOf_snoc, List.append_assoc] using this
+    | root => simp [step] at hs
+    | attr a => simp [step] at hs
+    | slice lo hi => simp [step] at hs
+  | @flst p k fs sl a fv jx xs hp hpv hl hgp =>
+    cases t with
+    | idx i =>
+      simp only [step] at hs
+      cases hi : xs[i]? with
+      | none => simp [hi] at hs
+      | some w =>
+        simp only [hi, Option.map_some, Option.some.injEq] at hs; subst hs
+        have hg2 : getPath fv (jx ++ [i]) = some w := by
+          rw [getPath_append, hgp]; simp [getPath, hi]
+        have := good_of_field_value hp hpv hl hg2
+        simpa [suffixOf_snoc, List.append_assoc] using this
+    | root => simp [step] at hs
+    | attr a => simp [step] at hs
+    | slice lo hi => simp [step] at hs
+
+theorem good_run {root : Desc} {toks : List Tok} {st st' : State} (hg : Good root st) (hr : run st toks = some st')
+    (hpub : ∀ a, Tok.attr a ∈ toks → isPublic a = true) : Good root st' := by
+  induction toks generalizing st with
+  | nil => simp only [run, Option.some.injEq] at hr; subst hr; exact hg
+  | cons t ts ih =>
+    simp only [run] at hr
+    cases hs : step st t with
+    | none => simp [hs] at hr
+    | some st1 =>
+      simp only [hs] at hr
+      refine ih (good_step hg hs ?_) hr (fun a ha => hpub a (List.mem_cons_of_mem _ ha))
+      rintro a rfl; exact hpub a (by simp)
 
 end PV.Hier
